@@ -2,7 +2,9 @@ package checks
 
 import (
 	"context"
+	"encoding/json"
 	"fmt"
+	"sort"
 	"testing"
 	"time"
 
@@ -15,7 +17,54 @@ import (
 
 type c11aCase struct {
 	Scheme string
-	Fault  string // peer-absent-sign | peer-absent-keygen | short-deadline-keygen | digest-not-signable-no-deadline | garbage-share-data
+	Fault  string // peer-absent-sign | peer-absent-keygen | short-deadline-keygen | digest-not-signable-no-deadline | garbage-share-data | altered-share-data
+	// Variant (altered-share-data): which alteration of a genuine share, see c11aAlter
+	Variant int `json:",omitempty"`
+}
+
+// c11aAlter: stored share data that is unusable in a less obvious way than "{not json" - it is JSON, often the genuine
+// share with one thing missing. Returns nil when the variant does not exist.
+func c11aAlter(good []byte, v int) ([]byte, string) {
+	consts := []string{"{}", "null", "[]", "0", "\"share\"", "{\"BigXj\":[null]}", "{\"BigXj\":[null,null],\"Ks\":[null,null]}", "{\"Xi\":1,\"ShareID\":2}", "{\"ECDSAPub\":null,\"EDDSAPub\":null}"}
+	if v < len(consts) {
+		return []byte(consts[v]), "constant " + consts[v]
+	}
+	v -= len(consts)
+	var m map[string]json.RawMessage
+	if err := json.Unmarshal(good, &m); err != nil {
+		return nil, ""
+	}
+	keys := make([]string, 0, len(m))
+	for k := range m {
+		keys = append(keys, k)
+	}
+	sort.Strings(keys)
+	// per field: removed, null, empty array, empty object, number
+	repl := []string{"", "null", "[]", "{}", "7"}
+	if v < len(keys)*len(repl) {
+		k, r := keys[v/len(repl)], repl[v%len(repl)]
+		out := map[string]json.RawMessage{}
+		for kk, vv := range m {
+			out[kk] = vv
+		}
+		what := "field " + k + " removed"
+		if r == "" {
+			delete(out, k)
+		} else {
+			out[k] = json.RawMessage(r)
+			what = "field " + k + " = " + r
+		}
+		b, _ := json.Marshal(out)
+		return b, what
+	}
+	v -= len(keys) * len(repl)
+	switch v {
+	case 0:
+		return good[:len(good)/2], "genuine share cut in half"
+	case 1:
+		return append(append([]byte(nil), good...), good...), "genuine share twice"
+	}
+	return nil, ""
 }
 
 func runC11Adapters(c c11aCase) *vh.Outcome {
@@ -55,7 +104,7 @@ func runC11Adapters(c c11aCase) *vh.Outcome {
 		}
 	}
 	var fx *fixture
-	if c.Fault == "peer-absent-sign" || c.Fault == "digest-not-signable-no-deadline" {
+	if c.Fault == "peer-absent-sign" || c.Fault == "digest-not-signable-no-deadline" || c.Fault == "altered-share-data" {
 		var err error
 		fx, err = keyMaterial(c19Case{Scheme: c.Scheme, N: 2, T: 1, Live: c.Scheme == "eddsa"})
 		if err != nil {
@@ -112,6 +161,33 @@ func runC11Adapters(c c11aCase) *vh.Outcome {
 			}
 		}
 		judge("Sign of a digest the library refuses, context without deadline", r, ok, 20*time.Second)
+	case "altered-share-data":
+		bad, what := c11aAlter(fx.Shares[0], c.Variant)
+		if bad == nil {
+			o.Discard = "no-such-variant"
+			return o
+		}
+		o.Classes = append(o.Classes, "altered-share-data")
+		s := newSession(c.Scheme, 2, 1, "signing")
+		_ = s.parties[1].SetShareData(fx.Shares[1])
+		ctx, cancel := context.WithTimeout(context.Background(), 2*time.Second)
+		defer cancel()
+		go func() {
+			defer func() { _ = recover() }()
+			_, _ = s.parties[1].Sign(ctx, make([]byte, 32))
+		}()
+		r, ok := call(20*time.Second, func() error {
+			if err := s.parties[0].SetShareData(bad); err != nil {
+				return err
+			}
+			_, err := s.parties[0].Sign(ctx, make([]byte, 32))
+			return err
+		})
+		if ok && r.panic == "" && r.err == nil {
+			o.Classes = append(o.Classes, "altered-share-still-usable") // e.g. a field the signing protocol does not read
+			return o
+		}
+		judge(fmt.Sprintf("SetShareData/Sign (2s deadline, the peer takes part) with stored share data = %s", what), r, ok, 20*time.Second)
 	case "garbage-share-data":
 		s := newSession(c.Scheme, 2, 1, "signing")
 		r, ok := call(10*time.Second, func() error {
@@ -144,7 +220,12 @@ func TestC11Adapters(t *testing.T) {
 					return
 				}
 			}
+			for v := 0; v < 200; v++ {
+				if !yield(c11aCase{Scheme: scheme, Fault: "altered-share-data", Variant: v}) {
+					return
+				}
+			}
 		}
 	})
-	st.Note("TestC11Adapters: tss-lib adapters x {unusable share data, 50ms key-generation deadline, digest the library refuses with a context without deadline, absent peer during Sign / KeyGen}")
+	st.Note("TestC11Adapters: tss-lib adapters x {unusable share data (not JSON; JSON constants; the genuine share with each field removed / null / [] / {} / a number; cut in half; twice), 50ms key-generation deadline, digest the library refuses with a context without deadline, absent peer during Sign / KeyGen}")
 }
